@@ -74,13 +74,11 @@ func discharge(u *Universe, o *Obligation, dir string, timeoutS int, confirm boo
 	o.File = fname
 	start := time.Now()
 	definite := func(r solveResult) bool { return r.result == "unsat" || r.result == "sat" }
-	// fast path: newest z3 alone with a short budget
-	quick := 3
-	if timeoutS < quick {
-		quick = timeoutS
-	}
-	r := runSolver(context.Background(), solvers[0], fname, quick)
-	if !definite(r) {
+	var r solveResult
+	if o.Cover {
+		// vacuity guard: only "unsat" (contradictory assumptions) matters; a short budget is enough
+		r = runSolver(context.Background(), solvers[0], fname, 2)
+	} else {
 		ctx, cancel := context.WithCancel(context.Background())
 		ch := make(chan solveResult, len(solvers))
 		for _, s := range solvers {
@@ -95,9 +93,7 @@ func discharge(u *Universe, o *Obligation, dir string, timeoutS int, confirm boo
 				got = true
 				break
 			}
-			if rr.result == "error" && !strings.Contains(rr.out, "unknown") {
-				last = rr
-			} else if last.result == "" {
+			if last.result == "" || last.result == "error" || (rr.result == "unknown" && last.result == "timeout") {
 				last = rr
 			}
 		}
